@@ -346,6 +346,13 @@ func (u *Unit) assumeReachableWF(ref Term, t types.Type, st *State, depth int) {
 		return
 	}
 	notNil := mkNot(mkEq(ref, intConst(0)))
+	foreign := true
+	if n := namedOf(t); n != nil && n.Obj().Pkg() != nil && isRepoPkg(n.Obj().Pkg().Path()) {
+		foreign = false
+	}
+	if foreign && depth > 0 {
+		return
+	}
 	for i := 0; i < stt.NumFields(); i++ {
 		ft := stt.Field(i).Type()
 		if _, nested := ft.Underlying().(*types.Struct); nested {
@@ -358,6 +365,9 @@ func (u *Unit) assumeReachableWF(ref Term, t types.Type, st *State, depth int) {
 		case *types.Pointer:
 			u.assumeReachableWF(fv, ft, st, depth+1)
 		case *types.Slice:
+			if foreign {
+				continue
+			}
 			// elements that are themselves slices / references
 			es := u.te.sortOf(ut.Elem())
 			if es == SSlice || es == SInt || es == SIface {
